@@ -154,6 +154,9 @@ func HBuild() {
 		want = &PayloadEap{EAP: &eap_message.EAP{Code: eap_message.EapCodeRequest, Identifier: b8,
 			EapTypeData: &eap_message.EapExpanded{VendorID: 10415, VendorType: 3, VendorData: []byte{1, 0}}}}
 	}
+	if enc, err := c.Encode(); err == nil {
+		vr.Output("c19.container-encoding", enc)
+	}
 	vr.Assert("c19.one-appended", vOneAppended(c, objs, snap, tok))
 	if len(c) == len(objs)+1 {
 		vr.Assert("c19.fields", VEqPayload(want, c[len(c)-1]))
